@@ -80,12 +80,23 @@ func execute(rq request) response {
 			resp.StartErr = err.Error()
 			return
 		}
+		glued := false
 		for _, k := range rq.Keys {
-			d.Key(k)
+			if k == glue {
+				glued = true // the next key is followed at once by the one after it: its background work is still in flight then
+				continue
+			}
+			if glued {
+				d.KeysNoSettle(string([]byte{k}))
+				glued = false
+			} else {
+				d.Key(k)
+			}
 			if d.Panic != "" {
 				return
 			}
 		}
+		d.Settle()
 	})
 	if d != nil && d.Panic != "" {
 		resp.Panic = d.Panic
@@ -115,6 +126,10 @@ func execute(rq request) response {
 }
 
 // ---------------------------------------------------------------- alphabet
+
+// glue: not a key. In a key sequence it marks the next key as one that is not given time to
+// finish its background work before the key after it arrives.
+const glue = 0xfe
 
 type token struct {
 	Name string
@@ -184,7 +199,7 @@ func main() {
 	}
 	r := ev.New("C07", "model_checking",
 		"breadth-first search over reference-model states (mode, buffer, history of pages, cursor) from 10 start commands (a paged collection opened as a listing, thread with ancestors and paged replies, actor with paged outbox, multi-author post with unfetchable parent, empty outbox, outbox whose second page is missing, feed of two actors, empty feed, failing URL, empty collection); "+
-			"alphabet: the keymap's keys, digits, Esc, Backspace, arbitrary bytes (NUL, LF, 0xC3) and macros (:open / :feed / unknown commands, a 20-digit number, 0 Enter, n .); a second search goes to depth 6 (quick) / 9 (thorough) over the page-opening and history keys {space,h,l,j,k,c,a} from the thread and actor starts; every transition replays the shortest key path on a fresh real ui.State (key + settle under the scheduler's default schedule) "+
+			"alphabet: the keymap's keys, digits, Esc, Backspace, arbitrary bytes (NUL, LF, 0xC3) and macros (:open / :feed / unknown commands, a 20-digit number, 0 Enter, n .); a second search goes to depth 6 (quick) / 9 (thorough) over the page-opening and history keys {space,h,l,j,k,c,a} and five glued pairs (a page is opened and left again before its surroundings have arrived) from the thread and actor starts; every transition replays the shortest key path on a fresh real ui.State (key + settle under the scheduler's default schedule) "+
 			"; a further start state, a viewer started with 1 Enter that is still open (real process, held), under 16 key sequences judged by the keymap (digits select, ':' commands, Esc cancels, other keys leave the notice)"+
 			"; end to end: 24 key sequences through the built program on a pseudo-terminal (main.go's key loop and frame writer included) compared screen by screen with ui.State driven directly "+
 			"and compares mode, buffer, history length/index and highlighted item; every frame is checked for height, terminal safety and colour leaks; distinct_nontrivial = distinct model states")
@@ -225,7 +240,9 @@ func main() {
 		resp := execute(request{rc.Start, rc.Keys, rc.Width, rc.Height, rc.Preload})
 		st := w.Start(rc.Start.Cmd, rc.Start.Arg)
 		for _, k := range rc.Keys {
-			w.Apply(st, k)
+			if k != glue {
+				w.Apply(st, k)
+			}
 		}
 		fmt.Printf("keys %v\n real : mode=%d buffer=%q hist=%d/%d current=%s panic=%q wedged=%q\n model: mode=%d buffer=%q hist=%d/%d current=%s\n",
 			rc.Names, resp.Mode, resp.Buffer, resp.HistIndex, resp.HistLen, resp.Current, resp.Panic, resp.Wedged, st.Mode, st.Buffer, st.Index, len(st.Pages), st.Page().Current())
@@ -245,7 +262,10 @@ func main() {
 		if st.Mode != uimodel.ModeNormal {
 			return nil
 		}
-		return []token{{"space", []byte(" ")}, {"h", []byte("h")}, {"l", []byte("l")}, {"j", []byte("j")}, {"k", []byte("k")}, {"c", []byte("c")}, {"a", []byte("a")}}
+		// the glued pairs open a page and leave it again before its surroundings have arrived: what
+		// arrives later belongs to the page that asked for it, wherever the user is by then
+		return []token{{"space", []byte(" ")}, {"h", []byte("h")}, {"l", []byte("l")}, {"j", []byte("j")}, {"k", []byte("k")}, {"c", []byte("c")}, {"a", []byte("a")},
+			{"space~h", []byte{glue, ' ', 'h'}}, {"c~h", []byte{glue, 'c', 'h'}}, {"a~h", []byte{glue, 'a', 'h'}}, {"l~h", []byte{glue, 'l', 'h'}}, {"h~l", []byte{glue, 'h', 'l'}}}
 	}
 	hdepth := 6
 	if r.Thorough() {
@@ -315,6 +335,9 @@ func main() {
 							next := n.State.Clone()
 							unspec := false
 							for _, k := range tok.Keys {
+								if k == glue {
+									continue
+								}
 								if uimodel.Unspecified(next, k) {
 									unspec = true
 								}
